@@ -29,7 +29,7 @@ from .. import universe as U
 PROP = "C11"
 BOUNDS = {
     "quick": dict(depth=2, max_patterns=2, pairs=70, sources=["yml", "option", "gitignore"], root_forms=["relative", "absolute", "dotdot"], subtrees=150),
-    "thorough": dict(depth=3, max_patterns=2, pairs=100000, sources=["yml", "option", "gitignore"], root_forms=["relative", "absolute", "dotdot"], subtrees=2000),
+    "thorough": dict(depth=3, max_patterns=2, pairs=1200, sources=["yml", "option", "gitignore"], root_forms=["relative", "absolute", "dotdot"], subtrees=2000),
 }
 
 _WORLD = {}
@@ -386,7 +386,7 @@ def run(tier: str) -> int:
             "pathspec_crosscheck": "the five pattern classes agree with pathspec on every universe path",
             "model_drift": rep.drift, "known_findings_hit": sorted(rep.known),
         },
-        assumptions=["exhaustive over the path universe for every configuration run; two-pattern lists are sampled in the quick tier", "supported extensions are read off Pygments (trusted), not off codelimit",
+        assumptions=["exhaustive over the path universe for every configuration run; two-pattern lists are sampled (70 in the quick tier, 1200 on the depth-3 universe of the thorough tier)", "supported extensions are read off Pygments (trusted), not off codelimit",
                      "each scan starts from an empty Configuration.exclude, as a fresh CLI process does; `scan` is reached in-process through the command line parser of codelimit.__main__ (typer's CliRunner); when exclusions are given as options its entry point function is called directly (this environment's typer / click pair cannot parse --exclude)"],
     )
     return rc
